@@ -705,6 +705,77 @@ def gen_color_spec(rng):
     return spec
 
 
+# ------------------------------------------------------------------------------------ pre / iterated / post sets with discrete links
+
+def gen_ppp_spec(rng):
+    """A feed-forward model for the pre-opt / iterated / post-opt split of a driver run.  Component 0 is an
+    IndepVarComp with the design variables; every other component has one continuous output y and one discrete
+    output cfg = {'v': y}; its inputs are continuous (from a y or a design variable) or discrete (from a cfg):
+        y = const + sum_k coef_k * input_k
+    Some components do not depend on the design variables (pre), some feed no response (post), and some
+    design-variable -> response paths exist only through a discrete link."""
+    ndv = rng.randrange(1, 3)
+    n = rng.randrange(3, 8)
+    comps = [{'name': 'd', 'ivc': True, 'ndv': ndv, 'vals': [rng.randrange(-2, 3) for _ in range(ndv)]}]
+    for ci in range(1, n + 1):
+        ins = []
+        r = rng.random()
+        if ci > 1 and r < 0.75:
+            for src in rng.sample(range(1, ci), min(ci - 1, rng.randrange(1, 3))):
+                ins.append({'src': src, 'kind': rng.choice(['c', 'd', 'd']), 'coef': rng.choice([-2, -1, 1, 2, 3])})
+        if r < 0.15 or rng.random() < 0.45 or not ins and rng.random() < 0.6:
+            ins.append({'src': 0, 'dv': rng.randrange(ndv), 'kind': 'c', 'coef': rng.choice([-2, 1, 2, 3])})
+        comps.append({'name': 'c%d' % ci, 'ivc': False, 'ins': ins, 'const': rng.randrange(-2, 3), 'group': None})
+    # a contiguous run of components lives in a sub-group (execution order = index order)
+    if n >= 3 and rng.random() < 0.6:
+        a = rng.randrange(1, n)
+        b = rng.randrange(a, n + 1)
+        for ci in range(a, b + 1):
+            comps[ci]['group'] = 'g'
+    nresp = rng.randrange(1, 3)
+    cands = list(range(1, n + 1))
+    rng.shuffle(cands)
+    responses = sorted(cands[:nresp])
+    points = [[rng.randrange(-3, 4) for _ in range(ndv)] for _ in range(3)]
+    return {'ppp': True, 'comps': comps, 'responses': responses, 'points': points}
+
+
+def ppp_order(spec):
+    """execution order of the components (root components in index order, members of group g adjacent where the
+    first member stands)"""
+    order, seen_g = [], False
+    for ci, c in enumerate(spec['comps']):
+        if c.get('group') == 'g':
+            if not seen_g:
+                seen_g = True
+                order += [k for k, cc in enumerate(spec['comps']) if cc.get('group') == 'g']
+        else:
+            order.append(ci)
+    return order
+
+
+def ppp_eval(spec, point):
+    """exact values y of every component at a design point (dependencies always point to smaller indices)"""
+    y = {}
+    for ci, c in enumerate(spec['comps']):
+        if c['ivc']:
+            continue
+        v = c['const']
+        for i in c['ins']:
+            v += i['coef'] * (point[i['dv']] if i['src'] == 0 else y[i['src']])
+        y[ci] = v
+    return y
+
+
+def ppp_graph(spec):
+    """(deps over the components in index order, seeds = design-variable component and response components);
+    a discrete connection is an ordinary dependency edge"""
+    deps = []
+    for ci, c in enumerate(spec['comps']):
+        deps.append([] if c['ivc'] else sorted({i['src'] for i in c['ins']}))
+    return deps, sorted({0} | set(spec['responses']))
+
+
 # ------------------------------------------------------------------------------------ solver scaling (C08)
 
 def with_scaling(spec, rng, pow2=True, route='add', only=None, prefer_group=False):
